@@ -13,5 +13,9 @@ for f in glob.glob("$V/harness/*.go"):
     rep["$REPO/cmd/verifharness/"+os.path.basename(f)]=f
 json.dump({"Replace":rep},open("$B/overlay.json","w"),indent=1)
 PY
-rm -f $B/verifharness
-cd $REPO && go build -tags verif -overlay $B/overlay.json "$@" -o $B/verifharness ./cmd/verifharness
+# the race-enabled build gets its own name; both are moved into place atomically, so that a check
+# running in parallel never finds the binary missing or half-written
+OUT=$B/verifharness
+case " $* " in *" -race "*) OUT=$B/verifharness-race;; esac
+cd $REPO && go build -tags verif -overlay $B/overlay.json "$@" -o $OUT.new.$$ ./cmd/verifharness
+mv -f $OUT.new.$$ $OUT
